@@ -23,15 +23,35 @@ func pinnedCallCensus(r *core.Run, rule, table, rel string, callees []string, wh
 	pred := func(o *types.Func) bool {
 		return o != nil && set[o.Name()] && o.Pkg() != nil && o.Pkg().Path() == mod+"/"+rel
 	}
+	direct := map[string]map[string]int{}
 	for _, fn := range w.SrcFuncs() {
 		if fn.Parent() != nil {
 			continue
 		}
 		for _, c := range core.CallsTo(fn, true, pred) {
-			got[core.SSAKey(fn)+" -> "+core.Callee(c).Name()]++
+			k := core.SSAKey(fn)
+			if direct[k] == nil {
+				direct[k] = map[string]int{}
+			}
+			direct[k][core.Callee(c).Name()]++
+		}
+	}
+	// the pinned table lists the direct edges of the reviewed tree; the current tree is measured through helpers
+	// (static callees, depth 2), so extracting a call into a helper is not a violation
+	deep := w.DeepCounts(direct, 2)
+	for k, items := range direct {
+		for it, n := range items {
+			got[k+" -> "+it] = n
 		}
 	}
 	genCounts(r, table, got)
+	for k, items := range deep {
+		for it, n := range items {
+			if n > got[k+" -> "+it] {
+				got[k+" -> "+it] = n
+			}
+		}
+	}
 	var pinned map[string]int
 	if !r.Table(table, &pinned) {
 		return
